@@ -101,9 +101,13 @@ impl S3 for FileSystem {
         debug!(from = %src_path.display(), to = %dst_path.display(), "copy file");
 
         let src_metadata_path = self.get_metadata_path(bucket, key, None)?;
-        if src_metadata_path.exists() {
-            let dst_metadata_path = self.get_metadata_path(&input.bucket, &input.key, None)?;
-            let _ = try_!(fs::copy(src_metadata_path, dst_metadata_path).await);
+        let dst_metadata_path = self.get_metadata_path(&input.bucket, &input.key, None)?;
+        if src_metadata_path != dst_metadata_path {
+            // the copy carries the metadata of its source: none if the source has none
+            self.delete_object_side_files(&input.bucket, &input.key)?;
+            if src_metadata_path.exists() {
+                let _ = try_!(fs::copy(src_metadata_path, dst_metadata_path).await);
+            }
         }
 
         let md5_sum = self.get_md5_sum(bucket, key).await?;
@@ -127,6 +131,7 @@ impl S3 for FileSystem {
         let path = self.get_bucket_path(&input.bucket)?;
         if path.exists() {
             try_!(fs::remove_dir_all(path).await);
+            self.delete_bucket_side_files(&input.bucket)?;
         } else {
             return Err(s3_error!(NoSuchBucket));
         }
@@ -148,6 +153,7 @@ impl S3 for FileSystem {
             }
         } else {
             try_!(fs::remove_file(&path).await);
+            self.delete_object_side_files(&input.bucket, &input.key)?;
         }
         let output = DeleteObjectOutput::default(); // TODO: handle other fields
         Ok(S3Response::new(output))
@@ -167,6 +173,7 @@ impl S3 for FileSystem {
         let mut deleted_objects: Vec<DeletedObject> = Vec::new();
         for (path, key) in objects {
             try_!(fs::remove_file(path).await);
+            self.delete_object_side_files(&input.bucket, &key)?;
 
             let deleted_object = DeletedObject {
                 key: Some(key),
@@ -515,6 +522,8 @@ impl S3 for FileSystem {
 
         debug!(path = %object_path.display(), ?size, %md5_sum, ?checksum, "write file");
 
+        // the new object replaces the old one together with its metadata
+        self.delete_object_side_files(&bucket, &key)?;
         if let Some(ref metadata) = metadata {
             self.save_metadata(&bucket, &key, metadata, None).await?;
         }
